@@ -7,17 +7,24 @@
   names, in the same order, to maps with the same configuration, kind, sentinel, cache and view
   flag and CONTENT-EQUAL states (`C10.Same`: both obey the layout, every pixel reads the same,
   same coverage mask — the arrays may differ in block order), the same names to files that are
-  content-equal in the same sense, and agree on everything else.
+  content-equal in the same sense, the same names to HEALPix-format files holding the same
+  (pixel, value) pairs (`HpSame`: an explicit file lists them in storage order), and agree on
+  everything else.
 
   `same_step`: in content-equal good worlds every protocol line outside the exception set
   `diffLine` gives the SAME answer and content-equal worlds again — errors included.
   `same_history`: any list of lines.  `diff_same`: the exception set is the same in both worlds.
+
+  The per-operation simulations: Lemmas/SameOps.lean (owning targets), Lemmas/SameViews.lean
+  (in-place operations through record-field views), Lemmas/SameRes.lean (`deg`, `genhp`, `dor`,
+  `cat`, `hpxwrite`).
 -/
-import HealSparse.Lemmas.SameOps
+import HealSparse.Lemmas.SameRes
 namespace HS
 namespace C10
 
-/-- the name the line operates on resolves to a record-field view -/
+/-- the name the line operates on resolves to a record-field view (no longer part of the
+    exception set: view targets are covered; kept with `viewTarget_same` as a fact of its own) -/
 def viewTarget (w : World) (a : Args) : Bool :=
   match w.get? (a.pos.headD "") with
   | some m => m.view.isSome
@@ -33,26 +40,35 @@ theorem noView_of {w : World} {a : Args} (h : viewTarget w a = false) : NoViewTa
 
 /-- **the exception set** (parsed operation and arguments, judged in the world the line runs in):
     * `dump`, `state`, `fitsraw`: they print / compare the ARRAYS, which content-equal maps need
-      not share (the only lines on which the two worlds are legitimately told apart);
-    * an in-place operation (`upd`, `updr`, `set`, `bits`, `geom`, and `sop` / `mask` / `bop` / `inv` with
-      `inplace=1`) whose target is a record-field VIEW: the store writes the column back into the parent —
-      not covered by the simulation proved here;
-    * the five operations NOT covered by the simulation proved here: `deg`, `dor`, `cat`, `genhp`
-      (they go through `degrade` / `cat`, whose error behaviour has no flat specification yet) and
-      `hpxwrite` (the HEALPix-format file lists the pixels in STORAGE order: the two files differ
-      as lists, though they hold the same pixel ↦ value association) (no dependence on the block order was observed
-      on them either: `uncoveredEvidence` below — evaluated, not proved).
-    Covered (42 operations + the whole `p.*` family): cfg upd updr set bits geom sop mask astype pack
-    bop inv mop moc interp chk copy info upg mocread single scov meta getmeta write read covread fromhp hpximplicit
-    hpxread rand vals get valid nvalid covmap vpsc fracdet covmask drop reset bad, unknown
-    operations. -/
+      not share (the only lines of the real protocol on which the two worlds are legitimately told
+      apart);
+    * `genhp` with `nest=0` and an `n2r=` table LONGER than the output map (`genhpLong`): the
+      model then reads the dense view at pixel numbers past the map, i.e. raw storage — a GENUINE
+      difference between content-equal worlds (`genhpCounterexample` below; a model artefact: the
+      real library computes the table itself, and the harness passes the true table).  Every
+      other `genhp` line is covered;
+    * `cat` of files that are not all read back with the kind and sentinel of the FIRST one
+      (`catMixed`; the loop reads every file through the first file's sentinel): NOT covered —
+      no difference was observed on hand-made attempts; the harness never mixes kinds.  Every
+      `cat` of files of one kind and sentinel is covered.
+    Covered: all 47 other operations + the whole `p.*` family + unknown operations: cfg upd updr
+    set bits geom sop mask astype pack bop inv mop deg dor cat genhp hpxwrite moc interp chk copy
+    info upg mocread single scov meta getmeta write read covread fromhp hpximplicit hpxread rand
+    vals get valid nvalid covmap vpsc fracdet covmask drop reset bad.  In particular
+    * the in-place operations (`upd`, `updr`, `set`, `bits`, `geom`, and `sop` / `mask` / `bop` /
+      `inv` with `inplace=1`) whether their target is an owning map or a record-field VIEW (the
+      store then writes the column back into the parent: Lemmas/SameViews.lean);
+    * `deg` with or without a weight map, above or below the coverage resolution; `dor` on FITS
+      files (with or without pixel request and weight file: the result is the same map, array
+      for array) and on HEALPix-format files (Lemmas/SameRes.lean);
+    * `hpxwrite`: the two files differ as LISTS (storage order) but hold the same (pixel, value)
+      pairs, which is what `World.SameW` asks of HEALPix-format files (`HpSame`); `hpxread` and
+      `dor` of such files give content-equal maps. -/
 def diff (w : World) (op : String) (a : Args) : Bool :=
   match op with
   | "dump" | "state" | "fitsraw" => true
-  | "upd" | "updr" | "set" | "bits" | "geom" => viewTarget w a
-  | "sop" | "mask" | "bop" | "inv" => a.flag "inplace" && viewTarget w a
-  -- not covered
-  | "deg" | "dor" | "cat" | "genhp" | "hpxwrite" => true
+  | "genhp" => genhpLong w a
+  | "cat" => catMixed w a
   | _ => false
 
 /-- … on a protocol line -/
@@ -90,16 +106,14 @@ theorem same_stepArgs {w₁ w₂ : World} (h : w₁.SameW w₂) (g₁ : w₁.Goo
         | exact same_opAstype h g₁ g₂ a | exact same_opScov h g₁ g₂ a | exact same_opUpg h g₁ g₂ a
         | exact same_opFracdet h g₁ g₂ a | exact same_opSingle h g₁ g₂ a
         | exact same_opMop h g₁ g₂ a | exact same_opPack h g₁ g₂ a | exact same_opInterp h g₁ g₂ a
-        | exact same_opMoc h g₁ g₂ a)
-    | exact same_opUpd h g₁ g₂ a (noView_of hex)
-    | exact same_opUpdr h g₁ g₂ a (noView_of hex)
-    | exact same_opSet h g₁ g₂ a (noView_of hex)
-    | exact same_opBits h g₁ g₂ a (noView_of hex)
-    | exact same_opGeom h g₁ g₂ a (noView_of hex)
-    | exact same_opSop h g₁ g₂ a (inplace_noView hex)
-    | exact same_opMask h g₁ g₂ a (inplace_noView hex)
-    | exact same_opBop h g₁ g₂ a (inplace_noView hex)
-    | exact same_opInv h g₁ g₂ a (inplace_noView hex)
+        | exact same_opMoc h g₁ g₂ a | exact same_opDeg h g₁ g₂ a | exact same_opDor h a
+        | exact same_opHpxwrite h g₁ g₂ a)
+    | exact same_opGenhp h g₁ g₂ a hex
+    | exact same_opCat h g₁ a hex
+    | (with_reducible first
+        | exact sameV_opUpd h g₁ g₂ a | exact sameV_opUpdr h g₁ g₂ a | exact sameV_opSet h g₁ g₂ a
+        | exact sameV_opBits h g₁ g₂ a | exact sameV_opGeom h g₁ g₂ a | exact sameV_opSop h g₁ g₂ a
+        | exact sameV_opMask h g₁ g₂ a | exact sameV_opBop h g₁ g₂ a | exact sameV_opInv h g₁ g₂ a)
 
 /-- **one protocol line in content-equal good worlds**: outside the exception set the same line
     gives the same answer — `ok`, an observation, or `err X` with the same `X` — and
@@ -130,10 +144,20 @@ theorem viewTarget_same {w₁ w₂ : World} (h : w₁.SameW w₂) (g₁ : w₁.G
   · rw [e1, e2]
   · rw [e1, e2]; simp only [hc.view_eq]
 
+theorem genhpLong_same {w₁ w₂ : World} (h : w₁.SameW w₂) (g₁ : w₁.Good) (g₂ : w₂.Good) (a : Args) :
+    genhpLong w₁ a = genhpLong w₂ a := by
+  unfold genhpLong
+  rcases h.get g₁ g₂ (a.pos.headD "") with ⟨e1, e2⟩ | ⟨m₁, m₂, e1, e2, hc⟩
+  · rw [e1, e2]
+  · rw [e1, e2]
+    cases parseNats (a.getD "n2r" "_") with
+    | none => rfl
+    | some t => simp only [hc.spord_eq]
+
 theorem diff_same {w₁ w₂ : World} (h : w₁.SameW w₂) (g₁ : w₁.Good) (g₂ : w₂.Good) (op : String)
     (a : Args) : diff w₁ op a = diff w₂ op a := by
   unfold diff
-  split <;> simp only [viewTarget_same h g₁ g₂]
+  split <;> first | rfl | exact genhpLong_same h g₁ g₂ a | exact catMixed_same h a
 
 theorem diffLine_same {w₁ w₂ : World} (h : w₁.SameW w₂) (g₁ : w₁.Good) (g₂ : w₂.Good)
     (line : String) : diffLine w₁ line = diffLine w₂ line := by
@@ -219,7 +243,8 @@ theorem bind_bind_sameW {w : World} (g : w.Good) (n : String) {x y a b : MapObj}
     unfold World.bind
     simp only [List.filter_cons, bne_self_eq_false, Bool.false_eq_true, if_false, List.filter_filter,
       Bool.and_self]
-  refine ⟨?_, Named.refl_on fun e he => FileObj.SameF.refl (g.2.2 e he).1, rfl, rfl, rfl, rfl⟩
+  refine ⟨?_, Named.refl_on fun e he => FileObj.SameF.refl (g.2.2 e he).1, rfl, rfl,
+    Named.refl HpSame.refl _, rfl⟩
   show Named EntSame ((n, _) :: (w.bind n x).pool.filter (·.1 != n))
     ((n, _) :: (w.bind n y).pool.filter (·.1 != n))
   rw [hpool, hpool]
@@ -302,11 +327,13 @@ def continuation : List String :=
         == ["err ValueError", "err IndexError", "err NotImplementedError"]
 -- the exception set flags the array dumps and the operations not covered
 #guard diffLine (runLines route₁) "dump m" && diffLine (runLines route₁) "state m cov=_ sp=_" &&
-       diffLine (runLines route₁) "deg m ord=0 r=d" && !diffLine (runLines route₁) "upd m pix=1 val=1" &&
+       !diffLine (runLines route₁) "hpxwrite m f=H" && !diffLine (runLines route₁) "deg m ord=0 r=d" &&
+       !diffLine (runLines route₁) "dor f=F ord=0 r=d" && !diffLine (runLines route₁) "cat files=F,G f=C" &&
+       !diffLine (runLines route₁) "genhp m ord=0 red=sum" && !diffLine (runLines route₁) "upd m pix=1 val=1" &&
        !diffLine (runLines route₁) "mop maps=m,m name=sum_union r=x"
 
-/-- the operations the simulation does not cover, run after both routes -/
-def uncoveredEvidence : List String :=
+/-- resolution changes, concatenation and HEALPix interchange, run after both routes -/
+def resContinuation : List String :=
   ["deg m ord=0 red=sum r=d1", "vals d1", "deg m ord=0 red=mean r=d2", "vals d2",
    "deg m ord=0 red=or r=d3", "vals d3",
    "cfg k kind=plain dtype=i4 covord=0 spord=1", "upd k pix=5,30 vals=2,3",
@@ -320,8 +347,23 @@ def uncoveredEvidence : List String :=
    "cfg b kind=plain dtype=b1 covord=0 spord=2", "upd b pix=100 val=T", "upd b pix=5 val=T",
    "pack b r=pb", "valid pb", "vals pb"]
 
--- EVIDENCE ONLY (not covered by `same_step`): the same answers on both routes here too
-#guard (runObs (runLines route₁) uncoveredEvidence).2 == (runObs (runLines route₂) uncoveredEvidence).2
+-- no line falls in the exception set; the same answers on both routes (what `same_history` proves)
+#guard sameSafe (runLines route₁) resContinuation
+#guard (runObs (runLines route₁) resContinuation).2 == (runObs (runLines route₂) resContinuation).2
+#guard ((runObs (runLines route₁) resContinuation).2.filter (· == "ok")).length ≥ 15
+
+/-- the (pixel, value) lists of an explicit HEALPix-format file -/
+def hpPairs (w : World) (n : String) : Option (List Nat × List Val) :=
+  match (w.hpfiles.find? (·.1 == n)).map (·.2) with
+  | some (HpFile.explicit _ _ _ pix vals) => some (pix, vals)
+  | _ => none
+
+-- `hpxwrite`: the two files list the pixels in different orders (storage order) …
+#guard (hpPairs (step (runLines route₁) "hpxwrite m f=H").1 "H").map (·.1) == some [40, 5]
+#guard (hpPairs (step (runLines route₂) "hpxwrite m f=H").1 "H").map (·.1) == some [5, 40]
+-- … and reading them back gives the same answers
+#guard (runObs (runLines route₁) ["hpxwrite m f=H", "hpxread f=H covord=0 r=hh", "vals hh", "valid hh"]).2
+        == (runObs (runLines route₂) ["hpxwrite m f=H", "hpxread f=H covord=0 r=hh", "vals hh", "valid hh"]).2
 
 /-- boolean maps, record maps and views of the covered set, after two routes -/
 def boolRoute (swap : Bool) : List String :=
@@ -338,6 +380,53 @@ def boolContinuation : List String :=
 #guard sameSafe (runLines (boolRoute true)) boolContinuation
 #guard (runObs (runLines (boolRoute true)) boolContinuation).2
         == (runObs (runLines (boolRoute false)) boolContinuation).2
+
+/-- in-place operations THROUGH VIEWS (the store writes the column back into the parent), on both
+    routes: accepted writes, refused ones (a view cannot create pixels; boolean algebra on a
+    numeric view), scalar operators, masks, ranges, slices, geometry -/
+def viewContinuation : List String :=
+  ["single r field=1 r=v1", "single r field=0 r=v0", "vals v1", "upd v1 pix=5 val=9^1", "vals r", "vals v1",
+   "upd v1 pix=7 val=1", "upd v0 pix=40 val=8", "vals r", "updr v1 ranges=40:41 val=3 path=slice", "vals r",
+   "updr v1 ranges=0:3 val=3", "set v1 slice=5:6:1 val=2", "vals r", "sop v1 op=add k=1 inplace=1", "vals r",
+   "sop v0 op=mul k=3 inplace=1", "vals r", "nvalid v0", "nvalid r",
+   "cfg q kind=plain dtype=i4 covord=0 spord=1", "upd q pix=5 val=1", "mask v0 by=q bits=1 inplace=1",
+   "vals r", "valid r", "geom v0 ranges=5:6 value=3 op=replace mode=ior", "vals r",
+   "bop v0 op=and const=F inplace=1", "inv v0 inplace=1", "bits v0 pix=5 bits=1",
+   "geom v1 ranges=40:41 value=3^0 op=add mode=ior", "vals r", "upd v0 pix=5 none=1", "vals r", "valid r"]
+
+-- no line falls in the exception set (view targets are covered), the answers agree line by line,
+-- and the parents end content-equal with different arrays
+#guard sameSafe (runLines (boolRoute true)) viewContinuation
+#guard (runObs (runLines (boolRoute true)) viewContinuation).2
+        == (runObs (runLines (boolRoute false)) viewContinuation).2
+#guard ((runObs (runLines (boolRoute true)) viewContinuation).2.filter (· == "ok")).length ≥ 12
+#guard (step (runObs (runLines (boolRoute true)) viewContinuation).1 "dump r").2
+        != (step (runObs (runLines (boolRoute false)) viewContinuation).1 "dump r").2
+
+/-! the `genhp` exception is genuine: all twelve coverage pixels allocated in two different orders,
+    then a RING export through a malformed `n2r=` table (49 entries for 48 pixels, entry 48
+    repeating entry 0): pixel 0 reads back `abs 48`, the first cell of the LAST storage block -/
+
+/-- one pixel per coverage pixel, ascending … -/
+def fullRoute₁ : List String :=
+  ["cfg m kind=plain dtype=i4 covord=0 spord=1"] ++ (List.range 12).map fun k => s!"upd m pix={4*k} val={k+1}"
+/-- … and descending -/
+def fullRoute₂ : List String :=
+  ["cfg m kind=plain dtype=i4 covord=0 spord=1"] ++
+    (List.range 12).reverse.map fun k => s!"upd m pix={4*k} val={k+1}"
+/-- the identity table with one entry too many -/
+def genhpCounterexample : String :=
+  "genhp m nest=0 n2r=" ++ ",".intercalate (((List.range 48) ++ [0]).map toString)
+
+#guard samePoolB (runLines fullRoute₁) (runLines fullRoute₂)
+#guard diffLine (runLines fullRoute₁) genhpCounterexample
+#guard (step (runLines fullRoute₁) genhpCounterexample).2 != (step (runLines fullRoute₂) genhpCounterexample).2
+#guard ((step (runLines fullRoute₁) genhpCounterexample).2.take 3) == "12,"
+#guard ((step (runLines fullRoute₂) genhpCounterexample).2.take 2) == "1,"
+-- with the table of the right length the line is covered, and the answers agree
+#guard !diffLine (runLines fullRoute₁) ("genhp m nest=0 n2r=" ++ ",".intercalate ((List.range 48).map toString))
+#guard (step (runLines fullRoute₁) ("genhp m nest=0 n2r=" ++ ",".intercalate ((List.range 48).map toString))).2
+        == (step (runLines fullRoute₂) ("genhp m nest=0 n2r=" ++ ",".intercalate ((List.range 48).map toString))).2
 
 /-- the theorems applied: any two routes whose final worlds are content-equal (hypothesis `h`,
     e.g. from `upd_routes_sameW`) are indistinguishable by `continuation` -/
